@@ -92,3 +92,6 @@ package pkce
 //@   ensures [C03.enforced-needs-challenge] err == nil && responsible && (c.Config.GetEnforcePKCE(ctx) || (c.Config.GetEnforcePKCEForPublicClients(ctx) && old(ar.GetClient()).IsPublic())) ==> challenge != ""
 //@   ensures [C03.authorize-touches-only-its-code] forall s string :: s != sig ==> pkce_exists[s] == old(pkce_exists[s]) && pkce_challenge[s] == old(pkce_challenge[s]) && pkce_method[s] == old(pkce_method[s])
 //@   ensures [C03.fault-refuses] faults != old(faults) ==> err != nil
+
+//@ func (*Handler).CanSkipClientAuth
+//@   ensures [C10.pkce-handler-never-skips-auth] !result
